@@ -101,6 +101,10 @@ class ThreadWorker(Worker):
 
     def _get_result(self):
         # _result is set by the child directly
+        if self._result is None and self._started and not self.is_child and not self._child.is_alive():
+            # the child thread ended without recording an outcome (e.g. an asynchronous
+            # exception was raised in it outside of the try block of _run)
+            self._result = (False, None)
         return self._result
 
     #
